@@ -139,10 +139,16 @@ func IntFromString(str string, base int) (Object, error) {
 	}
 
 	// Detect leading zeros which Python doesn't allow using base 0
+	// (unless the number is zero: "00" is fine, "01" is not)
 	if base == 0 {
-		if len(s) > 1 && s[0] == '0' && (s[1] >= '0' && s[1] <= '9') {
+		if len(s) > 1 && s[0] == '0' && (s[1] >= '0' && s[1] <= '9') && strings.Trim(s, "0") != "" {
 			goto error
 		}
+	}
+
+	// The sign has been dealt with: the conversions below would accept a second one
+	if s[0] == '+' || s[0] == '-' {
+		goto error
 	}
 
 	// Use int64 conversion for short strings since 12**36 < IntMax
